@@ -268,14 +268,28 @@ def blocking_client(chk, exe, rng, tier):
     import ksi, wire
     s = netsim.Session(exe); n = 0
     good = dict(what="resp", mac="ok", hdr="ok", ver="v2", status="0", id="same", hash="same", cons="ok", body="full")
-    def exchange(parts, close_after=False, caps=None):
-        """one signing call; the reply is delivered in `parts`; returns (ok, line)"""
+    def exchange(parts, close_after=False, caps=None, sendcaps=None):
+        """one signing call; the request is accepted by send() in pieces of `sendcaps`, the reply is delivered in `parts`; returns (ok, line)"""
         doc = ksi.imprint(1, b"c14b-%d" % rng.randrange(1 << 30))
+        if sendcaps:
+            s.cmd("EP 0"); s.cmd("SENDCAPS " + " ".join(str(c) for c in sendcaps))
         out = s.cmd("SIGN %s 0" % doc.hex())
+        if sendcaps:
+            s.cmd("SENDCAPS")
         if not out or not out[-1].startswith("Q recv"):
             return None, str(out[-1:])
         raw = b"".join(bytes.fromhex(l.split("data=")[1]) for l in out if l.startswith("E send"))
-        rid = int.from_bytes(wire.request_fields(raw)["payload"].get(1, b""), "big")
+        try:
+            f = wire.request_fields(raw)
+            whole = f["macok"] and f["tag"] == 0x0220 and f["payload"].get(2) == doc and len(ksi.parse_tlvs(raw)) == 1
+        except Exception:
+            f = None; whole = False
+        if not whole:
+            chk.violation("blocking-send:partial-sends", "blocking TCP client: the bytes written with send() accepting %s do not form one whole request (%d bytes: %s...)" % (
+                          (sendcaps or ["everything"])[:4], len(raw), raw[:24].hex()), dict(log=[x[:300] for x in s.log[-8:]]))
+            s.cmd("PEERCLOSE"); s.cmd("GO")
+            return None, "request not whole"
+        rid = int.from_bytes(f["payload"].get(1, b""), "big")
         reply = wire.sign_reply(good, random.Random(11), rid, doc, 0, None)
         pieces = parts(reply)
         if caps:
@@ -302,6 +316,16 @@ def blocking_client(chk, exe, rng, tier):
             ok, line = exchange(parts, caps=caps); n += 1
             if ok is not True:
                 chk.violation("blocking-framing:%s" % name, "blocking TCP client: an honest reply delivered as %s is not accepted: %s" % (name, line), dict(log=s.log[-12:]))
+        # the client's output split into partial sends: first send accepts k bytes (every k), every send accepts at most 1 / 7 bytes
+        req_len = 0
+        out = s.cmd("SIGN %s 0" % ksi.imprint(1, b"probe").hex())
+        req_len = len(b"".join(bytes.fromhex(l.split("data=")[1]) for l in out if l.startswith("E send")))
+        s.cmd("PEERCLOSE"); s.cmd("GO")
+        plans = [[k] for k in range(1, req_len, 1 if tier == "thorough" else 5)] + [[1] * (req_len + 2), [7] * (req_len // 7 + 2), [2, 1, req_len]]
+        for pl in plans:
+            ok, line = exchange(lambda rep: [rep], sendcaps=pl); n += 1
+            if ok is False:
+                chk.violation("blocking-send:honest-rejected", "blocking TCP client: signing failed on an honest reply when send() accepted %s: %s" % (pl[:4], line), dict(log=s.log[-12:]))
         for k in range(1, probe_len, step):
             ok, line = exchange(lambda rep, k=k: [rep[:k], rep[k:]]); n += 1
             if ok is not True:
